@@ -313,6 +313,7 @@ def mon_c01(case, obs, prefix):
 
 def mon_c06(case, obs, prefix):
     bad = []
+    lost = set()       # keys whose original response failed in the socket (wfail events)
     ndatagrams = 0
     for i, ev, o, prev, prev_dp, dup in walk(case, obs, prefix):
         sends = o["sends"] or []
@@ -335,11 +336,18 @@ def mon_c06(case, obs, prefix):
                 bad.append((i, "retransmitted request changed state"))
             cached = rx_entry(prev, key)["cached"]
             if cached:
-                if len(sends) != 1 or sends[0]["dst"] != ev["peer"] or sends[0]["class"] >= first_idx:
+                if ev.get("wfail") and not sends:
+                    pass        # the re-send failed in the socket as well
+                elif len(sends) != 1 or sends[0]["dst"] != ev["peer"] or (sends[0]["class"] >= first_idx and key not in lost):
                     bad.append((i, "retransmitted request not answered with a byte-identical copy of the original response"))
+                if sends:
+                    lost.discard(key)
             elif sends:
                 bad.append((i, "retransmitted request without stored response was answered"))
         else:
+            lost.discard(key)
+            if ev.get("wfail") and not sends:
+                lost.add(key)       # the original response never left the UPF: the first copy the peer sees defines "identical"
             if rx_entry(d, key) is None:
                 bad.append((i, "first copy of a request left no receive transaction"))
     return bad
@@ -350,7 +358,7 @@ def mon_c07(case, obs, prefix):
     for i, ev, o, prev, prev_dp, dup in walk(case, obs, prefix):
         if o.get("fault"):
             break
-        if ev["t"] == "recv" and ev["msg"]["k"] == "hb" and not dup:
+        if ev["t"] == "recv" and ev["msg"]["k"] == "hb" and not dup and not ev.get("wfail"):
             s = o["sends"] or []
             if len(s) != 1 or s[0]["type"] != "hbrsp" or s[0]["seq"] != ev["seq"] or s[0]["dst"] != ev["peer"]:
                 bad.append((i, "Heartbeat Request not answered"))
@@ -404,9 +412,12 @@ def mon_c09(case, obs, prefix):
                     bad.append((i, "expiry for an unknown transmit transaction had an effect"))
             elif e0["count"] < case["maxretrans"]:
                 e1 = tx_entry(d, k)
-                if len(sends) != 1 or (sends[0]["class"] >= first_idx and k not in lost) or sends[0]["seq"] != ev["seq"]:
+                if ev.get("wfail") and not sends:
+                    pass        # the retransmission failed in the socket: counted all the same (below)
+                elif len(sends) != 1 or (sends[0]["class"] >= first_idx and k not in lost) or sends[0]["seq"] != ev["seq"]:
                     bad.append((i, "expiry did not retransmit the request byte-identically"))
-                lost.discard(k)
+                if sends:
+                    lost.discard(k)
                 if e1 is None or e1["count"] != e0["count"] + 1:
                     bad.append((i, "retry counter not advanced by one"))
             else:
